@@ -26,7 +26,7 @@ var (
 	seqUniverse  = []string{"0", "1", "2", "65535", "65536", "-1", "x"}
 	b64Universe  = []string{"aGVsbG8=", "aGVsbG8gd29ybGQ=", "", "AAAA", "!!!!", "aGVsbG8", "QQ==", strings.Repeat("QUFB", 700)}
 	fromUniverse = []string{peerFull, "juliet@example.com", remoteAddr, roomMe, roomBare, roomBare + "/other", localAddr, localAddr + "/res", ""}
-	msgTypes     = []string{"", "normal", "chat", "groupchat", "headline", "error"}
+	msgTypes     = []string{"", "normal", "chat", "chat", "normal", "groupchat", "headline", "error"}
 	queryIDs     = []string{"q1", "q1", "q2", ""}
 	rcptIDs      = []string{"r1", "r1", "r2", ""}
 )
@@ -191,6 +191,57 @@ var templates = []template{
 	{"empty-stanza", func(t *rapid.T, id string) string {
 		return `<` + pick(t, "st", []string{"message", "presence", "iq"}) + ` id="` + id + `" type="` + pick(t, "etype", []string{"result", "error", "chat", "unavailable", "normal"}) + `"/>`
 	}},
+	// coherent multi-stanza scenarios: they put the handler tables into deeper states
+	{"scenario-ibb-session", func(t *rapid.T, id string) string {
+		sid := pick(t, "sid", []string{"s1", "s2", "es1"})
+		if gs != nil {
+			gs.open = append(gs.open, sid)
+		}
+		st := pick(t, "stanza", []string{"", ` stanza="iq"`, ` stanza="message"`})
+		var sb strings.Builder
+		sb.WriteString(`<iq type="set" id="` + id + `o" from="` + peerFull + `" to="` + localAddr + `"><open xmlns="http://jabber.org/protocol/ibb" block-size="4096" sid="` + sid + `"` + st + `/></iq>`)
+		n := rapid.IntRange(1, 4).Draw(t, "ndata")
+		for k := 0; k < n; k++ {
+			data := pick(t, "b64", []string{"aGVsbG8=", "aGVsbG8gd29ybGQ=", "QQ==", ""})
+			if rapid.IntRange(0, 3).Draw(t, "asmsg") == 0 {
+				sb.WriteString(fmt.Sprintf(`<message id="%sd%d" from="%s" to="%s"><data xmlns="http://jabber.org/protocol/ibb" seq="%d" sid="%s">%s</data></message>`, id, k, peerFull, localAddr, k, sid, data))
+			} else {
+				sb.WriteString(fmt.Sprintf(`<iq type="set" id="%sd%d" from="%s" to="%s"><data xmlns="http://jabber.org/protocol/ibb" seq="%d" sid="%s">%s</data></iq>`, id, k, peerFull, localAddr, k, sid, data))
+			}
+		}
+		if gs != nil {
+			gs.seq[sid] = n
+		}
+		if rapid.Bool().Draw(t, "close") {
+			sb.WriteString(`<iq type="set" id="` + id + `c" from="` + peerFull + `" to="` + localAddr + `"><close xmlns="http://jabber.org/protocol/ibb" sid="` + sid + `"/></iq>`)
+		}
+		return sb.String()
+	}},
+	{"scenario-muc-room", func(t *rapid.T, id string) string {
+		var sb strings.Builder
+		if rapid.Bool().Draw(t, "joinerr") {
+			sb.WriteString(`<presence type="error" id="mj1" from="` + roomMe + `">` + errCancel + `</presence>`)
+		}
+		n := rapid.IntRange(1, 3).Draw(t, "npres")
+		for k := 0; k < n; k++ {
+			from := pick(t, "pfrom", []string{roomMe, roomMe, roomBare + "/other"})
+			typ := pick(t, "ptype", []string{"", "", ` type="unavailable"`})
+			status := pick(t, "status", []string{`<status code="110"/>`, ``, `<status code="110"/><status code="201"/>`})
+			sb.WriteString(fmt.Sprintf(`<presence id="%sp%d" from="%s"%s><x xmlns="http://jabber.org/protocol/muc#user"><item affiliation="owner" role="moderator"/>%s</x></presence>`, id, k, from, typ, status))
+		}
+		return sb.String()
+	}},
+	{"scenario-mam-page", func(t *rapid.T, id string) string {
+		var sb strings.Builder
+		n := rapid.IntRange(1, 3).Draw(t, "nmsg")
+		for k := 0; k < n; k++ {
+			sb.WriteString(fmt.Sprintf(`<message id="%sm%d" from="%s"><result xmlns="urn:xmpp:mam:2" queryid="q1" id="a%d">%s</result></message>`, id, k, remoteAddr, k, forwardedMsg))
+		}
+		if rapid.Bool().Draw(t, "fin") {
+			sb.WriteString(`<iq type="result" id="hq1" from="` + remoteAddr + `"><fin xmlns="urn:xmpp:mam:2" complete="true"><set xmlns="http://jabber.org/protocol/rsm"><first index="0">a0</first><last>a2</last><count>3</count></set></fin></iq>`)
+		}
+		return sb.String()
+	}},
 	{"other-element", func(t *rapid.T, id string) string {
 		n := gen.Tree(t, "other", rapid.IntRange(0, 3).Draw(t, "odepth"), nsClient)
 		if n.Name.Space == "http://etherx.jabber.org/streams" {
@@ -268,11 +319,24 @@ func drawStanza(t *rapid.T, i int) step {
 		s.input = raw
 		return s
 	}
-	n := lit(raw)
+	var elems []*xt.Node
+	for _, n := range lits(raw) {
+		if !n.IsText() {
+			elems = append(elems, n)
+		}
+	}
 	for j := 0; j < nmut; j++ {
+		n := elems[0]
+		if len(elems) > 1 {
+			n = elems[rapid.IntRange(0, len(elems)-1).Draw(t, "mut-stanza")]
+		}
 		s.muts = append(s.muts, mutate(t, n))
 	}
-	s.input = render(n)
+	var sb strings.Builder
+	for _, n := range elems {
+		sb.WriteString(render(n))
+	}
+	s.input = sb.String()
 	return s
 }
 
@@ -304,7 +368,7 @@ func genACase(t *rapid.T) *acase {
 	}
 	n := rapid.IntRange(1, 20).Draw(t, "nsteps")
 	for i := 0; i < n; i++ {
-		switch k := rapid.IntRange(0, 19).Draw(t, "stepkind"); {
+		switch k := rapid.IntRange(0, 20).Draw(t, "stepkind"); {
 		case k <= 13:
 			c.steps = append(c.steps, drawStanza(t, i))
 		case k <= 17:
@@ -328,7 +392,7 @@ func genACase(t *rapid.T) *acase {
 				}
 			}
 			c.steps = append(c.steps, s)
-		case k == 18:
+		case k <= 19:
 			c.steps = append(c.steps, step{kind: "leave"})
 		default:
 			c.steps = append(c.steps, step{kind: "raw", name: "raw", input: rapid.SampledFrom(rawPieces).Draw(t, "raw")})
@@ -344,14 +408,17 @@ func (e *env) classify(input string) []string {
 	if err != nil || len(n.Children) == 0 {
 		return []string{"A:route=unparsable"}
 	}
-	var st *xt.Node
+	var out []string
 	for _, c := range n.Children {
 		if !c.IsText() {
-			st = c
-			break
+			out = append(out, e.classifyStanza(c)...)
 		}
 	}
-	if st == nil || st.Name.Space != nsClient {
+	return out
+}
+
+func (e *env) classifyStanza(st *xt.Node) []string {
+	if st.Name.Space != nsClient {
 		return []string{"A:route=not-a-stanza"}
 	}
 	typ, _ := st.Get("type")
